@@ -199,3 +199,124 @@ Theorem static_size_consistent : forall d rho z z',
   static_size (fields d) = Some z -> dynamic_size d rho = Some z' -> z' = z.
 Proof. exact RefProofs.static_size_consistent. Qed.
 Print Assumptions static_size_consistent.
+
+(* ---------- the widened reference: bits blocks, nested structures, parameters, dynamic sizes
+              (View/RefNest.v; proved in View/RefNestProofs.v) ---------- *)
+Require Import EmbossV.View.RefNest EmbossV.View.RefNestProofs.
+
+(* [ref_struct m bytes n tid (Some ps) (whole bytes)] is the TREE of facts the language reference defines for
+   structure number tid of module m over the message: for every field whether it exists and what it reads, and
+   for a field whose type is a structure -- a nested byte structure, a named bits type or an anonymous `bits:`
+   block -- the Ok / IsComplete / size of that structure and the facts of its members, over the window the
+   field designates: the bytes [start, start+size) of the enclosing window clipped to it (size may be any
+   expression: `[+len]`), for a bits type the number those bytes hold in the field's byte order, a member at
+   bit offset off of size s being (number / 2^off) mod 2^s; parameters are the values of the argument expressions
+   over the enclosing structure's fields; a field that does not exist, or whose location or arguments have no
+   value, gives its type no window and no parameters.  [node_of] reads a result tree of the generated-code model
+   as such facts (it forgets the storage objects; a value counts only when the view is Ok()).
+   For EVERY module m, structure d in the decidable class [wf_ref_n m n] (the class [wf_ref] of
+   gen_agrees_with_ref_partial, plus: fields of bits types of at most 64 bits whose members are scalars of any
+   kind at constant bit size, anonymous bits blocks with their hoisted aliases, aliases and expressions through
+   paths `a.b.c`, fields of nested byte structures of the class -- to any depth <= n, with arguments that are
+   expressions over other fields, of constant or dynamic size --, conditions inside nested and bits types),
+   every parameter list, EVERY byte string and every sufficient fuel, the tree the generated code reports EQUALS
+   the reference tree: has_x() tri-state, x().Ok(), the value, and hereditarily Ok(), IsComplete(), SizeIsKnown /
+   size and the members of every nested view, whether the nested field is located, absent or not yet locatable. *)
+Theorem gen_agrees_with_ref_nested : forall m tid d ps bytes n fuel,
+  nth_error m tid = Some d -> wf_ref_n m n d = true -> unit_bits d = 8 -> (2 * n <= fuel)%nat ->
+  node_of (eval_struct m bytes fuel d ps true (root bytes)) = ref_struct m bytes n tid (Some ps) (whole bytes).
+Proof. exact RefNestProofs.gen_agrees_with_ref_nested. Qed.
+Print Assumptions gen_agrees_with_ref_nested.
+
+(* nothing is lost by [node_of]: every member of the reported tree has been evaluated, hereditarily, and the tree
+   has no array parts; spelled out for the top level: *)
+Theorem gen_agrees_with_ref_nested_fields : forall m tid d ps bytes n fuel,
+  nth_error m tid = Some d -> wf_ref_n m n d = true -> unit_bits d = 8 -> (2 * n <= fuel)%nat ->
+  let r := eval_struct m bytes fuel d ps true (root bytes) in
+  let t := ref_struct m bytes n tid (Some ps) (whole bytes) in
+  fr_ssize r = n_size t /\ fr_ok r = n_ok t /\ length (fr_sub r) = length (n_members t) /\
+  forall i, (i < length (fr_sub r))%nat ->
+    exists g, nth_error (fr_sub r) i = Some (Some g) /\ node_of g = nget (n_members t) i.
+Proof. exact RefNestProofs.gen_agrees_with_ref_nested_fields. Qed.
+Theorem gen_tree_evaluated : forall m tid d ps bytes n fuel,
+  nth_error m tid = Some d -> wf_ref_n m n d = true -> (2 * n <= fuel)%nat ->
+  evaluated (S n) (eval_struct m bytes fuel d ps true (root bytes)) = true.
+Proof. exact RefNestProofs.gen_tree_evaluated. Qed.
+
+(* ... hence the whole observation vector that the harness compares with the real C++ *)
+Theorem gen_observations_are_ref_nested : forall m tid d ps bytes n fuel,
+  nth_error m tid = Some d -> wf_ref_n m n d = true -> unit_bits d = 8 -> (2 * n <= fuel)%nat ->
+  run_view m tid ps bytes fuel = ref_observe_n m tid ps bytes n.
+Proof. exact RefNestProofs.gen_observations_are_ref_nested. Qed.
+Print Assumptions gen_observations_are_ref_nested.
+
+(* the facts of one structure are THE solution of its per-field equations [is_nref_model] (the nested structures
+   given by [ref_struct] one level down): it exists ([nsolve], the function [ref_struct] runs), it is unique, and
+   the generated code agrees with any assignment that satisfies the equations -- over any window, with or
+   without parameters *)
+Theorem nref_model_exists : forall inner m n d ps bytes w,
+  wf_ref_n m (S n) d = true -> is_nref_model inner d ps bytes w (nsolve inner d ps bytes w).
+Proof. exact RefNestProofs.nref_model_exists. Qed.
+Theorem nref_model_unique : forall inner m n d ps bytes w rho rho',
+  wf_ref_n m (S n) d = true ->
+  is_nref_model inner d ps bytes w rho -> is_nref_model inner d ps bytes w rho' -> rho = rho'.
+Proof. exact RefNestProofs.nref_model_unique. Qed.
+Theorem gen_agrees_with_nref_model : forall m tid d ps bytes n fuel rho,
+  nth_error m tid = Some d -> wf_ref_n m (S n) d = true -> unit_bits d = 8 -> (2 * S n <= fuel)%nat ->
+  is_nref_model (ref_struct m bytes n) d (Some ps) bytes (whole bytes) rho ->
+  node_of (eval_struct m bytes fuel d ps true (root bytes)) = nsummary d (Some ps) (whole bytes) rho.
+Proof. exact RefNestProofs.gen_agrees_with_nref_model. Qed.
+Print Assumptions gen_agrees_with_nref_model.
+
+(* Arrays stay outside the class: the reference gives an array size/elem elements of its DESIGNATED window and
+   lets it be read when that window is in the message; on a truncated message the generated code reports Ok()
+   with the element count of the clamped storage (known finding F9); on the whole message the two agree. *)
+Theorem gen_agrees_with_ref_refuted_array :
+  exists m tid d bytes extra,
+    nth_error m tid = Some d /\
+    (let r := eval_struct m bytes 8 d [] true (root bytes) in
+     let t := ref_struct m bytes 2 tid (Some []) (whole bytes) in
+     exists g, nth_error (fr_sub r) 1 = Some (Some g) /\
+       fr_has g = Some true /\ n_present (nget (n_members t) 1) = Some true /\
+       fr_ok g = true /\ n_ok (nget (n_members t) 1) = false /\
+       fr_ssize g = Some 1 /\ n_size (nget (n_members t) 1) = Some 3) /\
+    (let bytes' := bytes ++ extra in
+     let r := eval_struct m bytes' 8 d [] true (root bytes') in
+     let t := ref_struct m bytes' 2 tid (Some []) (whole bytes') in
+     exists g, nth_error (fr_sub r) 1 = Some (Some g) /\
+       fr_ok g = true /\ n_ok (nget (n_members t) 1) = true /\
+       fr_ssize g = Some 3 /\ n_size (nget (n_members t) 1) = Some 3).
+Proof. exact RefNestProofs.gen_agrees_with_ref_refuted_array. Qed.
+
+(* the class is inhabited by a structure with a named bits type, an anonymous bits block with hoisted aliases, a
+   nested structure with an argument and a dynamic size, and a virtual field over members of nested views
+   (the translation of a real .emb, see RefNestProofs); on a complete and on a truncated message *)
+Example wf_ref_n_inhabited : wf_ref_n m_nest_ex 2 d_nest_ex = true /\ unit_bits d_nest_ex = 8.
+Proof. exact RefNestProofs.wf_ref_n_example. Qed.
+Example wf_ref_n_inhabited_complete :
+  let bytes := [1; 2; 165; 124; 9; 8] in
+  let t := ref_struct m_nest_ex bytes 2 2 (Some []) (whole bytes) in
+  is_nref_model (ref_struct m_nest_ex bytes 1) d_nest_ex (Some []) bytes (whole bytes) (n_members t) /\
+  n_value (nlookup (n_members t) [2; 0]%nat) = Some (VInt 5) /\
+  n_value (nlookup (n_members t) [2; 2]%nat) = Some (VInt 10) /\
+  n_value (nlookup (n_members t) [4]%nat) = Some (VInt 12) /\
+  n_value (nlookup (n_members t) [5]%nat) = Some (VInt 7) /\
+  n_value (nlookup (n_members t) [6; 0]%nat) = Some (VInt 1) /\
+  n_value (nlookup (n_members t) [6; 1]%nat) = Some (VInt 9) /\
+  n_value (nlookup (n_members t) [6; 2]%nat) = Some (VInt 8) /\
+  n_value (nlookup (n_members t) [7]%nat) = Some (VInt 22) /\
+  n_size t = Some 6 /\ n_complete t = true /\ n_ok t = true /\
+  node_of (eval_struct m_nest_ex bytes 8 d_nest_ex [] true (root bytes)) = t /\
+  run_view m_nest_ex 2 [] bytes 8 = ref_observe_n m_nest_ex 2 [] bytes 2.
+Proof. exact RefNestProofs.wf_ref_n_example_complete. Qed.
+Example wf_ref_n_inhabited_truncated :
+  let bytes := [1; 2; 165; 124; 9] in
+  let t := ref_struct m_nest_ex bytes 2 2 (Some []) (whole bytes) in
+  n_present (nlookup (n_members t) [6; 2]%nat) = Some true /\
+  n_value (nlookup (n_members t) [6; 2]%nat) = None /\
+  n_value (nlookup (n_members t) [6; 1]%nat) = Some (VInt 9) /\
+  n_ok (nlookup (n_members t) [6]%nat) = false /\ n_size (nlookup (n_members t) [6]%nat) = Some 2 /\
+  n_value (nlookup (n_members t) [7]%nat) = Some (VInt 22) /\
+  n_size t = Some 6 /\ n_complete t = false /\ n_ok t = false /\
+  run_view m_nest_ex 2 [] bytes 8 = ref_observe_n m_nest_ex 2 [] bytes 2.
+Proof. exact RefNestProofs.wf_ref_n_example_truncated. Qed.
